@@ -65,6 +65,15 @@ def bufs(o):
     return [np.asarray(o)]
 
 
+def allbufs(o):
+    """every array an object owns (particles also carry charges and masses)"""
+    out = bufs(o)
+    for nm in ('q', 'm'):
+        if type(o).__name__ in ('particles', 'fields', 'acceleration') and isinstance(getattr(o, nm, None), np.ndarray):
+            out = out + [getattr(o, nm)]
+    return out
+
+
 def dg(o):
     return tuple(digest(b) for b in bufs(o))
 
@@ -124,7 +133,7 @@ def run_ops_mesh(case, r):
 
     ops = 0
     for step in range(case['nops']):
-        kind = int(rng.integers(0, 12))
+        kind = int(rng.integers(0, 13))
         keys = list(names)
         a = keys[int(rng.integers(0, len(keys)))]
         b = keys[int(rng.integers(0, len(keys)))]
@@ -197,6 +206,30 @@ def run_ops_mesh(case, r):
             c1[...] = val
             r.check(np.array_equal(np.asarray(x)[1], val.astype(np.asarray(x).dtype)), 'component-writable', f'{tag}: writing through the component view does not reach the parent')
             unchanged(before, 'component write', exclude=(a,) + tuple(k for k, v in names.items() if v is x))
+        elif kind == 11 and multi and np.asarray(names[a]).ndim >= 2 and np.asarray(names[a]).shape[1] >= 2:  # components of a non-contiguous view
+            x = names[a]
+            which = int(rng.integers(0, 4))
+            if which == 0:
+                v = x[:, ::2]
+            elif which == 1:
+                v = x[:, ::-1]
+            elif which == 2:
+                v = x[:, 1:]
+            else:
+                v = x.real if np.iscomplexobj(np.asarray(x)) else x[:, :1]
+            if isinstance(v, cls):
+                comps = cls.components
+                ci = int(rng.integers(0, len(comps)))
+                c = getattr(v, comps[ci])
+                r.check(np.shares_memory(np.asarray(c), np.asarray(x)), 'component-is-view', f'{tag}: component {comps[ci]!r} of a non-contiguous view (variant {which}) is a copy, not a view of the buffer')
+                val = rnd(np.asarray(c).shape)
+                if which == 3 and np.iscomplexobj(np.asarray(x)):
+                    val = np.real(val)
+                c[...] = val
+                got = np.asarray(v)[ci]
+                r.check(np.array_equal(got, np.asarray(val).astype(got.dtype)), 'component-writable', f'{tag}: writing through component {comps[ci]!r} of a non-contiguous view (variant {which}) does not reach the buffer')
+                r.count('noncontiguous_component_views')
+            unchanged(before, 'component write through a view', exclude=(a,) + tuple(k for k, v_ in names.items() if v_ is x))
         elif kind == 9:  # numpy functions
             x = names[a]
             fn = [np.sin, np.exp, np.conj, np.real, np.square][int(rng.integers(0, 5))]
@@ -280,6 +313,14 @@ def run_ops_particles(case, r):
             r.check(type(res) is cls, 'result-type', f'{tag}: operation {kind} returned {type(res).__name__}')
             r.check(all(np.array_equal(x, y) for x, y in zip(bufs(res), exp)), 'result-value', f'{tag}: operation {kind} gives a wrong value')
             r.check(not shares(res, names[a]) and not shares(res, names[b]), 'result-independent', f'{tag}: result of operation {kind} shares memory with an operand')
+            if kind == 3:
+                r.check(not any(np.shares_memory(x, y) for x in allbufs(res) for y in allbufs(names[a])), 'copy-independent', f'{tag}: the copy shares an array (positions, velocities, charges or masses) with the original')
+                keepall = tuple(digest(x) for x in allbufs(names[a]))
+                for x in allbufs(res):
+                    x[...] = 7.0
+                r.check(tuple(digest(x) for x in allbufs(names[a])) == keepall, 'copy-independent', f'{tag}: writing into the copy changed the original')
+                r.count('particle_copies_checked')
+                res = fresh()
             keep = dg(names[a])
             for x in bufs(res):
                 x[...] = 7.0
